@@ -17,6 +17,15 @@ func Targets() []*Target {
 			ringTarget(),
 			basisExtenderTarget(),
 			decomposerTarget(),
+			bgvEncoderTarget(),
+			ckksEncoderTarget(),
+			encryptorTarget("rlwe.Encryptor[sk]", false),
+			encryptorTarget("rlwe.Encryptor[pk]", true),
+			decryptorTarget(),
+			keyGeneratorTarget(),
+			rgswEvaluatorTarget(),
+			lintransEvaluatorTarget(),
+			polynomialEvaluatorTarget(),
 		}
 	})
 	return targets
